@@ -38,9 +38,15 @@ class Lu(Family):
                     labels = [rng.choice(LABELS + [rng.randrange(2 ** 20)])] + labels
             return (labels, rnd_addr(l, low), l)
 
-        def rnd_nh():
-            return rng.choice([rng.getrandbits(bits) | 1 << (bits - 1), 2 ** bits - 1,
-                               (0xffff << 32 | rng.getrandbits(32)) if self.v6 else rng.getrandbits(32)])
+        def rnd_nh(nh6=None, high=False):
+            """(address, address is IPv6): the next-hop version is crossed with the family - netaddr packs the
+            ADDRESS, 4 or 16 octets, whatever the routes are (IPv6 next hop for IPv4 labeled routes: RFC 8950)"""
+            if nh6 is None:
+                nh6 = rng.random() < .5
+            nb = 128 if nh6 else 32
+            ip = rng.choice([rng.getrandbits(nb) | 1 << (nb - 1), 2 ** nb - 1,
+                             (0xffff << 32 | rng.getrandbits(32)) if nh6 else rng.getrandbits(32)])
+            return (ip | 1 << (nb - 1) if high else ip, nh6)
 
         def add(kind, routes, nh=None):
             cls = []
@@ -50,7 +56,7 @@ class Lu(Family):
             else:
                 routes = [([WITHDRAW_LABEL], r[1], r[2]) for r in routes]
                 cls.append('unreach')
-            if self.v6 and kind == 'reach' and (any(r[1] < 2 ** 32 for r in routes) or nh < 2 ** 32):
+            if self.v6 and kind == 'reach' and (any(r[1] < 2 ** 32 for r in routes) or (nh[1] and nh[0] < 2 ** 32)):
                 cls.append('address-below-2^32')
             cases.append({'fam': self.name, 'kind': kind, 'v': {'routes': routes, 'nh': nh}, 'cls': cls})
 
@@ -64,8 +70,16 @@ class Lu(Family):
             add('reach', [rnd_route(24, [lab, 17])], rnd_nh())
             add('reach', [rnd_route(24, [17, lab])], rnd_nh())
             add('reach', [rnd_route(24, [16, lab, 18])], rnd_nh())
-        for nh in (0, 1, 2 ** 32 - 1, 2 ** 32 if self.v6 else 2 ** 31, 2 ** bits - 1):
+        # next-hop boundaries, both address versions on this family (an IPv6 next hop below 2^32 is the known
+        # low-address class and is only generated for the IPv6 family, whose known finding names it)
+        for nh in ((0, False), (1, False), (2 ** 31, False), (2 ** 32 - 1, False),
+                   (2 ** 32, True), (2 ** 128 - 1, True), (0x20010db8 << 96 | 1, True), (0xfe80 << 112 | 1, True),
+                   (0xffff << 32 | 0xac10040c, True)) + (((0, True), (1, True), (2 ** 32 - 1, True)) if self.v6 else ()):
             add('reach', [rnd_route()], nh)
+            add('reach', [rnd_route(), rnd_route()], nh)
+        for l in (0, 1, 8, bits - 1, bits):
+            for nh6 in (False, True):
+                add('reach', [rnd_route(l)], rnd_nh(nh6))
         for _ in range(300 if ctx.thorough else 40):
             n = rng.choice([2, 2, 3, 5, 8])
             rs = [rnd_route(None, [0] if rng.random() < .04 else None, low=rng.random() < .1) for _ in range(n)]
@@ -79,7 +93,7 @@ class Lu(Family):
             room = target - (5 + bits // 8)
             rs = [rnd_route(rng.randrange(8 * (k - 5) + 1, 8 * (k - 4) + 1), [rng.randrange(1, 2 ** 20)])
                   for k in fill_sizes(room, range(5, 5 + bits // 8), rng)]
-            add('reach', rs, rnd_nh() | 1 << (bits - 1))
+            add('reach', rs, rnd_nh(self.v6, high=True))        # the size arithmetic above assumes this next hop
             cases[-1]['huge'] = target > 60000
             if not ok:
                 cases[-1]['unencodable'] = 'attribute value of %d octets' % target
@@ -92,7 +106,7 @@ class Lu(Family):
         nl = [{'label': list(r[0]), 'prefix': '%s/%d' % (self.text(r[1]), r[2])} for r in v['routes']]
         if case['kind'] == 'unreach':
             return {'afi_safi': (self.afi, 4), 'withdraw': nl}
-        return {'afi_safi': (self.afi, 4), 'nexthop': self.text(v['nh']), 'nlri': nl}
+        return {'afi_safi': (self.afi, 4), 'nexthop': ip6(v['nh'][0]) if v['nh'][1] else ip4(v['nh'][0]), 'nlri': nl}
 
     def coq_routes(self, rs):
         return coq_list(rs, lambda r: 'mk_lroute %s %d %d' % (coq_list(r[0]), r[1], r[2]))
@@ -101,7 +115,8 @@ class Lu(Family):
         v = case['v']
         b = 'true' if self.v6 else 'false'
         if case['kind'] == 'reach':
-            return 'sx_res sx_optbytes (reachlu_construct %s %d %s)' % (b, v['nh'], self.coq_routes(v['routes']))
+            return 'sx_res sx_optbytes (reachlu_construct_x %s %s %d %s)' % (
+                b, 'true' if v['nh'][1] else 'false', v['nh'][0], self.coq_routes(v['routes']))
         return 'sx_res sx_optbytes (unreachlu_construct %s %s)' % (b, self.coq_routes(v['routes']))
 
     def coq_parse(self, case, octets):
@@ -130,7 +145,8 @@ class Lu(Family):
         rs = [[list(r[0]), render(r[1]), r[2]] for r in v['routes']]
         if case['kind'] == 'unreach':
             return [rs]
-        return [[render(v['nh'])], rs]
+        ip, nh6 = v['nh']
+        return [[[4, ip] if not nh6 else (render_low(ip) if render is render_low else [6, ip])], rs]
 
     def classify(self, case, stage, obs):
         cls = case['cls']
